@@ -153,6 +153,34 @@ def _reachable_unions(t, seen, out):
             _reachable_unions(a.type, seen, out)
 
 
+def fail_unions(e):
+    """union types met on the way down to each leaf failure, read from the notes cattrs attaches to the exception tree
+    ('Structuring class C @ attribute a' carries the attribute's type): pty strings.  Used to attribute a failure to a
+    recorded finding when the model (and so the dispatch trace) is unavailable."""
+    import pyty
+    out, seen = [], set()
+
+    def rec(x):
+        if x is None or id(x) in seen:
+            return
+        seen.add(id(x))
+        for n in getattr(x, "__notes__", ()) or ():
+            t = getattr(n, "type", None)
+            if t is not None and typing.get_origin(t) is typing.Union:
+                try:
+                    s = pyty.ty(t)
+                    if s not in out:
+                        out.append(s)
+                except Exception:
+                    pass
+        for sub in getattr(x, "exceptions", ()) or ():
+            rec(sub)
+        rec(x.__cause__)
+        rec(x.__context__)
+    rec(e)
+    return out
+
+
 def no_handler(e, target_name):
     """union types without a structure handler that the failure of this case is due to (pty strings): the type_ of every
     StructureHandlerNotFoundError in the exception tree; for cattrs' own 'no usable non-default attributes' TypeError (raised while
@@ -194,7 +222,7 @@ def main():
             t = target(c["target"])
             o = conv.structure(c["input"], t)
         except BaseException as e:  # noqa
-            res.append({"ok": False, "err": type(e).__name__, "msg": str(e)[:160], "no_handler": no_handler(e, c["target"])})
+            res.append({"ok": False, "err": type(e).__name__, "msg": str(e)[:160], "no_handler": no_handler(e, c["target"]), "fail_unions": fail_unions(e)})
             continue
         r = {"ok": True, "dump": dump(o)}
         errs = []
